@@ -53,6 +53,7 @@ type AbsState struct {
 	Pkrel     []int      `json:"pkrel"`
 	MaxVals   int64      `json:"maxVals"`   // pos/MaxValidators as stored
 	MinStake  int64      `json:"minStake"`  // pos/StakeMinimum as stored
+	DenomAlt  bool       `json:"denomAlt"`  // pos/StakeDenom is no longer the default denomination
 	Anomalies []string   `json:"anomalies"` // things the abstraction cannot represent (unknown addresses, foreign denoms …)
 }
 
@@ -236,6 +237,7 @@ func (a *App) Project() (s AbsState) {
 	})
 	s.MaxVals = int64(a.PK.MaxValidators(ctx))
 	s.MinStake = a.PK.MinimumStake(ctx)
+	s.DenomAlt = a.PK.StakeDenom(ctx) != sdk.DefaultStakeDenom
 	bz := st.Get(postypes.ProposerKey)
 	if bz == nil {
 		s.Proposer = -1
